@@ -233,23 +233,55 @@ def verify(ws, job, workdir):
     timeout = job.get("timeout_s", 600)
     try:
         with open(outp, "w") as f:
-            p = subprocess.Popen(cmd, stdout=f, stderr=subprocess.DEVNULL,
+            p = subprocess.Popen(cmd, stdout=subprocess.PIPE, stderr=subprocess.DEVNULL,
                                  preexec_fn=_limits(job.get("mem_gb", 10)))
+            th = threading.Thread(target=_filter_json, args=(p.stdout, f))
+            th.start()
             try:
                 p.wait(timeout=timeout)
             except subprocess.TimeoutExpired:
                 os.killpg(p.pid, 9)
                 p.wait()
+                th.join()
                 res.status = "timeout"
                 res.detail = "no verdict within %ds" % timeout
                 res.time_s = time.time() - t0
                 return res
+            th.join()
     except Exception as e:  # pragma: no cover
         res.detail = "cannot run cbmc: %r" % e
         return res
     res.time_s = time.time() - t0
     parse_cbmc_json(outp, res, p.returncode)
     return res
+
+
+_NOISE = (b"Unwinding loop", b"Not unwinding", b"aborting path", b"Unwinding recursion")
+
+
+def _filter_json(src, dst):
+    """CBMC's --json-ui stream is a top-level array of objects, one `{`...`}` per message, each
+    starting with a line `  {` and ending with `  }` or `  },`.  Statistics verbosity (needed for
+    solver times) also emits one message per loop unwinding; those are dropped here."""
+    buf = []
+    depth0 = False
+    for line in src:
+        if not depth0:
+            if line.rstrip() == b"  {":
+                depth0 = True
+                buf = [line]
+            else:
+                dst.write(line.decode("utf-8", "replace"))
+            continue
+        buf.append(line)
+        if line.rstrip() in (b"  }", b"  },"):
+            blob = b"".join(buf)
+            if not any(n in blob for n in _NOISE):
+                dst.write(blob.decode("utf-8", "replace"))
+            depth0 = False
+            buf = []
+    if buf:
+        dst.write(b"".join(buf).decode("utf-8", "replace"))
 
 
 def parse_cbmc_json(path, res, rc):
@@ -265,6 +297,7 @@ def parse_cbmc_json(path, res, rc):
         return
     results = None
     status = None
+    errors = []
     for x in data:
         if "result" in x:
             results = x["result"]
@@ -283,6 +316,13 @@ def parse_cbmc_json(path, res, rc):
                 res.vccs = int(m.group(1))
         if x.get("messageType") == "ERROR":
             res.detail += x.get("messageText", "")[:300]
+            errors.append(x.get("messageText", ""))
+    if errors:
+        # e.g. "Solver ran out of memory during propositional reduction": CBMC then marks properties
+        # FAILURE without having decided them.  Never a verdict.
+        res.status = "oom" if any("memory" in e for e in errors) else "error"
+        res.detail = "cbmc error: " + "; ".join(e[:160] for e in errors[:2])
+        return
     if results is None:
         res.status = "oom" if rc in (-6, -9, 134, 137) else "error"
         res.detail = (res.detail or "") + " no result section (rc=%s)" % rc
